@@ -90,7 +90,10 @@ def entry_sets(F):
     adapters = [n for n in names if re.search(r"as (value::(AsValue|Array|Object)|document::Document)>::|impl (value::(AsValue|Array|Object)|document::Document) for ", n)] + ["value::Object::find"]
     match = ["rule::Rule::matches", "solver::solve", "core::solve", "core::solve_expression"] + adapters
     validate = ["rule::Rule::validate"]
-    return {"LOAD": load, "OPT": opt, "MATCH": match, "VALIDATE": validate}
+    # formatting goes through function pointers the call graph does not follow: every Display/Debug impl of the crate's own types can
+    # run wherever an error message or a trace line is rendered, so they belong to every entry set
+    fmts = [n for n in names if re.search(r" as (std|core)::fmt::(Display|Debug)>::fmt$", n) or re.search(r"impl (std|core)::fmt::(Display|Debug) for .*>::fmt$", n)]
+    return {"LOAD": load + fmts, "OPT": opt + fmts, "MATCH": match + fmts, "VALIDATE": validate + fmts}
 
 
 class Site:
@@ -134,7 +137,10 @@ def sites_of(F, fname):
                 continue
             a = t.get("assert")
             op = (t.get("detail") or {}).get("op", "")
-            out.append(Site(fname, "assert", "%s%s" % (a, ("(" + op + ")") if op else ""), t["sp"], "", t.get("exp")))
+            if str(a).startswith("BoundsCheck"):
+                out.append(Site(fname, "index", "builtin index", t["sp"], "[T]", t.get("exp")))  # `a[i]` on a slice/array: same obligations as Index::index
+            else:
+                out.append(Site(fname, "assert", "%s%s" % (a, ("(" + op + ")") if op else ""), t["sp"], "", t.get("exp")))
     return out
 
 
